@@ -82,7 +82,9 @@ def run(run):
                 run.bad("C15.Q1", "quoted-text-into-pipeline/%s" % short(caller), where(t), "the quoted-text fragments flow into %s in %s" % ([short(b) for b in bad], caller))
             else:
                 run.ok("C15.Q1", "quoted-text fragments are only appended to the finished fragment list in %s" % short(caller), where(t))
-    # ---------------- Q2..Q4 in escape_line
+    # ---------------- Q2..Q4 in escape_line (single-use private helpers it was split into are spliced back)
+    inl = prog.inline_single_use_helpers(el)
+    run.record("inlined_helpers", [short(x) for x in inl])
     ex = Expr(prog, el)
     b = prog.bodies[el]
     pos = lambda z, i: z[0] == "field" and z[2][-2:] == ("0", str(i)) or (z[0] == "field" and z[2][-1:] == (str(i),) and mentions(z, lambda y: y[0] == "call" and y[1].endswith("Iterator>::next")))
